@@ -3,6 +3,7 @@ package main
 // World: loaded packages, SSA program, contract files and lookups.
 
 import (
+	"sync"
 	"fmt"
 	"go/token"
 	"go/types"
@@ -35,6 +36,9 @@ type World struct {
 	ContractSources map[string]string // pkg path -> where the contract file was read from
 	typeInvs map[string][]*TypeInv
 	Aliases map[string]string
+	mutableField map[string]bool
+	scannedPkg map[string]bool
+	initOnlyMu sync.Once
 }
 
 const contractFileName = "zz_verif_contracts.go"
@@ -363,6 +367,9 @@ func (w *World) AxiomsFor(pkg *types.Package) []*Axiom {
 		}
 		if missing {
 			continue
+		}
+		if !strings.HasPrefix(n, "prelude:") && w.AllTypes[n] == nil {
+			continue // axioms of a package that is not part of this run
 		}
 		out = append(out, cf.Axioms...)
 		out = append(out, cf.Lemmas...) // lemmas are proved separately (lemma.go) and then used like axioms
